@@ -58,14 +58,17 @@ const (
 type MapEntry struct{ K, V Value }
 
 type Obj struct {
-	Kind  int
-	Val   Value   // kCell
-	B     *Bytes  // kBytes: backing bytes; kBuffer: all bytes ever written
-	R     *Term   // kBuffer: read offset
-	E     []Value // kElems
-	M     []MapEntry
-	ET    types.Type // element type (kElems/kBytes), may be nil
-	Epoch int        // kBuffer: number of modifications so far (views taken earlier are stale)
+	Kind    int
+	Val     Value   // kCell
+	B       *Bytes  // kBytes: backing bytes; kBuffer: all bytes ever written
+	R       *Term   // kBuffer: read offset
+	E       []Value // kElems
+	M       []MapEntry
+	ET      types.Type // element type (kElems/kBytes), may be nil
+	Epoch   int        // kBuffer: number of modifications so far (views taken earlier are stale)
+	Spare   *Term      // kBuffer: spare capacity behind the content (symbolic, >= 0), valid for SpareEp
+	SpareEp int
+	eShared bool // E is shared with another state's copy of this object: ownE() before writing an element
 }
 
 type Frame struct {
@@ -143,6 +146,14 @@ type State struct {
 	trace   []TraceEv
 }
 
+// ownE: make the element array private before an in-place write.
+func (o *Obj) ownE() {
+	if o.eShared {
+		o.E = append([]Value{}, o.E...)
+		o.eShared = false
+	}
+}
+
 func (s *State) clone() *State {
 	n := &State{heap: make(map[int]*Obj, len(s.heap)), pc: append([]*Term{}, s.pc...), steps: s.steps,
 		allocs: append([]AllocRec{}, s.allocs...), acc: append([]Access{}, s.acc...), lockEvs: append([]LockEv{}, s.lockEvs...),
@@ -156,7 +167,12 @@ func (s *State) clone() *State {
 	for k, o := range s.heap {
 		c := *o
 		if o.E != nil {
-			c.E = append([]Value{}, o.E...)
+			// copy on write: element arrays are shared between a state and its clones until one of them writes
+			// (long lists are cloned at every merged call); the capacity is clipped so that an append reallocates
+			o.E = o.E[:len(o.E):len(o.E)]
+			o.eShared = true
+			c.E = o.E
+			c.eShared = true
 		}
 		if o.M != nil {
 			c.M = append([]MapEntry{}, o.M...)
@@ -239,6 +255,16 @@ func (e *Engine) freshVar(prefix string, w int) *Term { return Var(e.freshName(p
 
 // boundedVar creates a 64-bit variable with lo <= v <= hi: the bound is asserted in the path condition
 // first and only then registered with the simplifier.
+// spareCap: the (unknown) spare capacity of a bytes.Buffer's backing array behind its content; one symbolic
+// value per modification epoch.
+func (e *Engine) spareCap(s *State, o *Obj) *Term {
+	if o.Spare == nil || o.SpareEp != o.Epoch {
+		o.Spare = e.boundedVar(s, "spare", 0, 1<<20)
+		o.SpareEp = o.Epoch
+	}
+	return o.Spare
+}
+
 func (e *Engine) boundedVar(s *State, prefix string, lo, hi int64) *Term {
 	v := e.freshVar(prefix, 64)
 	s.pc = append(s.pc, Le(CI(lo), v, true), Le(v, CI(hi), true))
@@ -596,6 +622,7 @@ func (e *Engine) store(s *State, p *Ptr, v Value, site string) {
 			panic("symbolic index store at " + site)
 		}
 		i := int(p.Path[0].Idx.Val)
+		o.ownE()
 		o.E[i] = update(o.E[i], p.Path[1:], v)
 	}
 }
@@ -1306,8 +1333,9 @@ func (e *Engine) makeSlice(s *State, f *Frame, x *ssa.MakeSlice, set func(Value)
 		set(&SliceV{Obj: id, Off: CI(0), Len: ln, Cap: cp})
 		return forks
 	}
-	if ln.IsConst() && ln.Val == 0 {
-		// zero length: the capacity is only a hint for append (which always reallocates in this model)
+	if ln.IsConst() && ln.Val == 0 && !(cp.IsConst() && cp.Val <= 4096) {
+		// zero length with a large or symbolic capacity: the capacity is only a hint for append (modelled as
+		// reallocating); small concrete capacities are modelled exactly (append fills them in place)
 		id := s.newObj(&Obj{Kind: kElems, ET: el})
 		set(&SliceV{Obj: id, Off: CI(0), Len: CI(0), Cap: CI(0)})
 		return forks
@@ -1362,6 +1390,30 @@ func (e *Engine) slice(s *State, f *Frame, x *ssa.Slice, set func(Value)) []*Sta
 		ok, forks := e.mustHold(s, cond, "slice bounds out of range at "+site)
 		if !ok {
 			return forks
+		}
+		if b.View != 0 && b.Obj == b.View && s.heap[b.Obj] != nil && s.heap[b.Obj].Kind == kBuffer {
+			// a view of a bytes.Buffer re-sliced past its own length: still legal up to the capacity, and what lies
+			// there is either later content of the buffer or whatever the backing array holds behind it
+			o := s.heap[b.Obj]
+			end := Add(b.Off, hi)
+			within := Le(end, o.B.Len, true)
+			if within != True {
+				more := e.forkBool(s, f, within, func(st *State, yes bool) {
+					if yes {
+						st.frames[len(st.frames)-1].locals[x] = &SliceV{Obj: b.Obj, Off: Add(b.Off, lo), Len: Sub(hi, lo), Cap: Sub(capT, lo), View: b.View, Epoch: b.Epoch}
+						return
+					}
+					ob := st.heap[b.Obj]
+					arr := ArrVar(e.freshName("beyond"))
+					extra := &Bytes{Len: Sub(end, ob.B.Len)}
+					extra.At = func(i *Term) *Term { return Select(arr, i) }
+					content := Concat2(SliceBytes(ob.B, Add(b.Off, lo), ob.B.Len), extra)
+					id := st.newObj(&Obj{Kind: kBytes, B: content})
+					st.notes = unionStr(st.notes, []string{"view-extended: a bytes.Buffer view is re-sliced past the buffer's content into its spare capacity at " + site})
+					st.frames[len(st.frames)-1].locals[x] = &SliceV{Obj: id, Off: CI(0), Len: Sub(hi, lo), Cap: Sub(capT, lo)}
+				})
+				return append(forks, more...)
+			}
 		}
 		set(&SliceV{Obj: b.Obj, Off: Add(b.Off, lo), Len: Sub(hi, lo), Cap: Sub(capT, lo), View: b.View, Epoch: b.Epoch})
 		return forks
